@@ -32,6 +32,15 @@ Oracle (from the statement)
   instance: checked on the real cache fields (saved at push time, compared after pop) and through
   ``inspect_value``.
 
+Extension families (reduced alphabets, see ``alphabet``)
+* fault: configuration 2 holds generators that can be told to fail; F(i,g) is a read during which
+  the generator raises.  Nothing was produced, so the cache model is unchanged and the next read at
+  that time (generator working again) must return G(gen,t) -- what a fresh instance returns.
+* generators beyond the random ones: TimeSampledFn with a non-zero offset (it enters a time context
+  of its own while producing), SquareWave, ScaledTime; configuration 4 runs with the exact
+  non-integer time type ``fractions.Fraction`` (times -2/3, 0, 1/3, 1, 5/2).
+* after every read, failing read and inspect the shared time must be unchanged in value and type.
+
 Scope: only well-nested histories (no pop without push, no exit without enter); blocks still open
 at the end of a history are closed normally (and checked).  Instance 2 is only used after
 instance 1 (the instances are created identically, so this is a pure symmetry reduction).
@@ -40,6 +49,7 @@ import logging
 import os
 import warnings
 from concurrent.futures import ProcessPoolExecutor
+from fractions import Fraction
 
 from bounded._api import Bounded, REPLAY_HEADER
 
@@ -59,6 +69,85 @@ CFGS = {
 }
 
 
+# --- extension: generators beyond the random ones, fault injection, exact non-integer times ----
+# A generator class name that is a key of GEN_SRC is built from that source text (evaluated with
+# GEN_PRELUDE in scope; the same text goes into the replay scripts).
+GEN_PRELUDE = '''
+import numbergen
+from fractions import Fraction
+class GenFault(Exception):
+    "raised by a generator that was told to fail"
+class FaultyUniformRandom(numbergen.UniformRandom):
+    "UniformRandom whose production can be made to fail (plain attribute ``fail``)"
+    fail = False
+    def __call__(self):
+        if self.fail:
+            raise GenFault('generator failed while producing a value')
+        return super().__call__()
+class FaultyScaledTime(numbergen.ScaledTime):
+    "ScaledTime (value = factor * time) whose production can be made to fail"
+    fail = False
+    def __call__(self):
+        if self.fail:
+            raise GenFault('generator failed while producing a value')
+        return super().__call__()
+'''
+GEN_SRC = {
+    "FaultyUniformRandom": "FaultyUniformRandom(name=%(name)r, seed=%(seed)d, time_dependent=True)",
+    "FaultyScaledTime": "FaultyScaledTime(factor=2.5)",
+    "TimeSampledFn": ("numbergen.TimeSampledFn(period=2.0, offset=0.5, fn=numbergen.UniformRandom("
+                      "name=%(name)r, seed=%(seed)d, time_dependent=True))"),
+    "TimeSampledFnExact": ("numbergen.TimeSampledFn(period=Fraction(3, 2), offset=Fraction(1, 2), "
+                           "fn=numbergen.NormalRandom(name=%(name)r, seed=%(seed)d, time_dependent=True))"),
+    "SquareWave": "numbergen.SquareWave(onset=0.5, duration=1.0, off_duration=2.0)",
+}
+FAULTY = ("FaultyUniformRandom", "FaultyScaledTime")
+_GEN_NS = {}
+
+
+def gen_ns():
+    if not _GEN_NS:
+        exec(compile(GEN_PRELUDE, "<c19 generators>", "exec"), _GEN_NS)
+    return _GEN_NS
+
+
+CFGS.update({
+    # fault family: both time-dependent generators can be made to fail
+    2: {"a": ("Number", "FaultyUniformRandom", "ga", 1, True),
+        "b": ("Dynamic", "FaultyScaledTime", "gb", 0, True),
+        "c": ("Dynamic", "UniformRandom", "gc", 3, False)},
+    # sampled generators with a non-zero offset (they enter a time context of their own while producing)
+    3: {"a": ("Dynamic", "TimeSampledFn", "ga", 1, True),
+        "b": ("Number", "SquareWave", "gb", 0, True),
+        "c": ("Number", "UniformRandomInt", "gc", 5, False)},
+    # exact non-integer time type
+    4: {"a": ("Number", "UniformRandom", "ga", 1, True),
+        "b": ("Dynamic", "TimeSampledFnExact", "gb", 7, True),
+        "c": ("Dynamic", "UniformRandom", "gc", 3, False)},
+})
+FTIMES = (Fraction(-2, 3), Fraction(0), Fraction(1, 3), Fraction(1), Fraction(5, 2))
+TIME_MODE = {0: "int", 1: "int", 2: "int", 3: "int", 4: "frac"}
+
+
+def cfg_times(cfgid):
+    return FTIMES if TIME_MODE[cfgid] == "frac" else TIMES
+
+
+def set_time_mode(tm, mode):
+    """reset the global time function to 0 of the mode's time type."""
+    if mode == "frac":
+        tm(Fraction(0), time_type=Fraction)
+    elif tm.time_type is not int:
+        tm(0, time_type=int)
+    else:
+        tm(0)
+
+
+def tsrc(t):
+    """source text of a time value."""
+    return "Fraction(%d, %d)" % (t.numerator, t.denominator) if isinstance(t, Fraction) else "%d" % t
+
+
 class Boom(Exception):
     """raised by the body of a ``with time_fn`` block (operation XR)."""
 
@@ -70,7 +159,33 @@ class Stop(Exception):
 # ---------------------------------------------------------------------------------------
 # operations
 # ---------------------------------------------------------------------------------------
-def alphabet(reduced=False):
+def alphabet(reduced=False, cfgid=0):
+    times = cfg_times(cfgid)
+    if reduced == "fault":
+        # quick slice of the fault family
+        ops = [("J", t) for t in (0, 1, 2)]
+        ops += [("R", 1, "a"), ("R", 2, "a"), ("F", 1, "a"), ("F", 2, "a")]
+        ops += [("I", 1), ("E",), ("X",), ("P", 1), ("Q", 1)]
+        return ops
+    if reduced == "fault+":
+        ops = [("J", t) for t in (-1, 0, 1, 2)]
+        ops += [("R", 1, "a"), ("R", 1, "b"), ("R", 2, "a"), ("F", 1, "a"), ("F", 1, "b"), ("F", 2, "a")]
+        ops += [("I", 1), ("E",), ("X",), ("XR",), ("P", 1), ("Q", 1)]
+        return ops
+    if reduced == "tiny":
+        ops = [("J", t) for t in ((Fraction(1, 3), Fraction(5, 2)) if TIME_MODE[cfgid] == "frac" else (1, 2))]
+        ops += [("R", 1, "a"), ("R", 1, "b"), ("I", 1), ("E",), ("X",), ("XR",)]
+        return ops
+    if reduced == "small":
+        ops = [("J", t) for t in times[1:4]]
+        ops += [("R", 1, "a"), ("R", 1, "b"), ("R", 2, "a"), ("R", 2, "b")]
+        ops += [("I", 1), ("E",), ("X",), ("XR",), ("P", 1), ("Q", 1)]
+        return ops
+    if reduced == "small+":
+        ops = [("J", t) for t in times]
+        ops += [("R", i, g) for i in (1, 2) for g in GENS]
+        ops += [("I", 1), ("E",), ("X",), ("XR",), ("P", 1), ("Q", 1)]
+        return ops
     if reduced:
         ops = [("J", t) for t in (-1, 0, 1)]
         ops += [("R", 1, "a"), ("R", 1, "c"), ("R", 2, "a")]
@@ -86,9 +201,9 @@ def alphabet(reduced=False):
 def op_text(op):
     k = op[0]
     if k == "J":
-        return "J(%d)" % op[1]
-    if k == "R":
-        return "R(%d,%s)" % (op[1], op[2])
+        return "J(%s)" % (op[1],)
+    if k in ("R", "F"):
+        return "%s(%d,%s)" % (k, op[1], op[2])
     if k in ("I", "P", "Q"):
         return "%s(%d)" % (k, op[1])
     return k
@@ -148,7 +263,7 @@ def enum_histories(length, ops, first=None):
 def worth_running(hist):
     """drop histories that cannot observe anything: I/P/Q on an instance that is never read, and
     histories with neither a read nor a time block."""
-    read = {op[1] for op in hist if op[0] == "R"}
+    read = {op[1] for op in hist if op[0] in ("R", "F")}
     for op in hist:
         if op[0] in ("I", "P", "Q") and op[1] not in read:
             return False
@@ -167,6 +282,8 @@ def _quiet():
 def make_gen(spec):
     import numbergen
     ptype, gcls, name, seed, td = spec
+    if gcls in GEN_SRC:
+        return eval(GEN_SRC[gcls] % {"name": name, "seed": seed}, gen_ns())
     if td:
         return getattr(numbergen, gcls)(name=name, seed=seed, time_dependent=True)
     return getattr(numbergen, gcls)(name=name, seed=seed)
@@ -206,8 +323,9 @@ def reference_table():
     tm = param.Dynamic.time_fn
     ref, errors = {}, []
     for cfgid, spec in CFGS.items():
+        set_time_mode(tm, TIME_MODE[cfgid])
         for g in ("a", "b"):
-            for t in TIMES:
+            for t in cfg_times(cfgid):
                 try:
                     tm(0)
                     x = plain_class(cfgid)()
@@ -218,7 +336,7 @@ def reference_table():
                 except Exception as e:                 # noqa
                     ref[(cfgid, g, t)] = NOREF
                     errors.append((cfgid, g, t, "%s: %s" % (type(e).__name__, e)))
-    tm(0)
+    set_time_mode(tm, "int")
     return ref, errors
 
 
@@ -243,13 +361,13 @@ class Case:
         raise Stop()
 
     def setup(self):
-        self.tm(0)
+        set_time_mode(self.tm, TIME_MODE[self.cfgid])
         installed = {}
         for op in self.hist:
-            if op[0] == "R":
+            if op[0] in ("R", "F"):
                 installed.setdefault(op[1], set()).add(op[2])
         self.installed = {i: [g for g in GENS if g in gs] for i, gs in installed.items()}
-        used = sorted({op[1] for op in self.hist if op[0] in ("R", "I", "P", "Q")})
+        used = sorted({op[1] for op in self.hist if op[0] in ("R", "F", "I", "P", "Q")})
         self.inst = {}
         if self.install == "assign":
             cls = plain_class(self.cfgid)
@@ -269,37 +387,63 @@ class Case:
         self.cache = {(i, g): None for i in self.inst for g in self.installed.get(i, ())}
         self.mstack = {i: [] for i in self.inst}     # model push stacks
         self.rstack = {i: [] for i in self.inst}     # real cache fields saved at push time
-        self.mtime = 0
+        self.mtime = self.tm()
 
     # -- single operations --------------------------------------------------------------
-    def read(self, idx, i, g):
+    def read(self, idx, i, g, fault=False):
         t = self.mtime
         td = self.spec[g][4]
         first = self.cache[(i, g)] is None
-        fields = "gen=%s:%s ptype=%s t=%d first_read=%d" % (g, self.spec[g][1], self.spec[g][0], t, int(first))
+        fields = "gen=%s:%s ptype=%s t=%s first_read=%d" % (g, self.spec[g][1], self.spec[g][0], t, int(first))
         clause = ("C19/Dynamic._produce_value/value==G(gen,t)" if td
                   else "C19/Dynamic._produce_value/same-time-same-value")
         self.ck(clause)
+        faulted = False
+        gen = None
+        if fault:
+            gen = self.inst[i].param.get_value_generator(g)
+            gen.fail = True
         try:
             v = getattr(self.inst[i], g)
         except Exception as e:                         # noqa
-            self.fail(idx, clause, (g, t, first, "raise:" + type(e).__name__),
-                      fields + " got=raise:" + type(e).__name__,
-                      "reading %s of instance %d at time %d raised %s: %s" % (g, i, t, type(e).__name__, e),
-                      ("read-raises", i, g))
+            if fault and type(e).__name__ == "GenFault":
+                faulted = True          # the injected fault: nothing was produced, the model cache is unchanged
+            else:
+                self.fail(idx, clause, (g, t, first, "raise:" + type(e).__name__),
+                          fields + " got=raise:" + type(e).__name__,
+                          "reading %s of instance %d at time %s raised %s: %s" % (g, i, t, type(e).__name__, e),
+                          ("read-raises", i, g))
+        finally:
+            if fault:
+                gen.fail = False
+        if faulted:
+            return
+        # (a failing generator that was not asked to produce -- the value for this time is cached --
+        #  returns the cached value, which is checked like any other read)
         if td:
             exp = self.ref[(self.cfgid, g, t)]
             if exp is not NOREF and not _same(v, exp):
                 self.fail(idx, clause, (g, t, first, _cls(v)), fields + " got=" + _cls(v),
-                          "instance %d: %s read at time %d is %r, the generator's value at that time is %r"
+                          "instance %d: %s read at time %s is %r, the generator's value at that time is %r"
                           % (i, g, t, v, exp), ("read-value", i, g, t))
         else:
             c = self.cache[(i, g)]
             if c is not None and c[1] == t and not _same(v, c[0]):
                 self.fail(idx, clause, (g, t, first, _cls(v)), fields + " got=" + _cls(v),
-                          "instance %d: %s read again at time %d is %r, it was %r" % (i, g, t, v, c[0]),
+                          "instance %d: %s read again at time %s is %r, it was %r" % (i, g, t, v, c[0]),
                           ("read-same", i, g))
         self.cache[(i, g)] = (v, t)
+
+    def time_unchanged(self, idx, what):
+        """reading / inspecting a parameter never advances or alters the shared time (value and type)."""
+        clause = "C19/read/never-alters-time"
+        self.ck(clause)
+        now = self.tm()
+        if not (now == self.mtime and type(now) is type(self.mtime)):
+            self.fail(idx, clause, (what, type(now).__name__),
+                      "op=%s time_type=%s got=%s" % (what, type(self.mtime).__name__, type(now).__name__),
+                      "the time was %r before %s and is %r afterwards" % (self.mtime, op_text(self.hist[idx]), now),
+                      ("time", idx))
 
     def inspect(self, idx, i):
         for g in self.installed.get(i, ()):
@@ -315,7 +459,7 @@ class Case:
                 moved = self.mtime != c[1]
                 self.fail(idx, clause, (g, moved, _cls(v)),
                           "gen=%s:%s time_moved=%d got=%s" % (g, self.spec[g][1], int(moved), _cls(v)),
-                          "instance %d: inspect_value(%r) at time %d returned %r; the value last produced (at time %d) is %r"
+                          "instance %d: inspect_value(%r) at time %s returned %r; the value last produced (at time %s) is %r"
                           % (i, g, self.mtime, v, c[1], c[0]), ("inspect-value", i, g))
 
     def real_cache(self, i):
@@ -369,8 +513,13 @@ class Case:
                 self.mtime = op[1]
             elif kind == "R":
                 self.read(k, op[1], op[2])
+                self.time_unchanged(k, "R:" + self.spec[op[2]][1])
+            elif kind == "F":
+                self.read(k, op[1], op[2], fault=True)
+                self.time_unchanged(k, "F:" + self.spec[op[2]][1])
             elif kind == "I":
                 self.inspect(k, op[1])
+                self.time_unchanged(k, "I")
             elif kind == "P":
                 self.push(k, op[1])
             elif kind == "Q":
@@ -415,7 +564,7 @@ class Case:
             tm = self.tm
             del tm._pushed_state[:]
             tm.in_context = False
-            tm(0)
+            set_time_mode(tm, "int")
         return self.findings, self.counts
 
 
@@ -441,17 +590,23 @@ def make_replay(cfgid, install, hist, check, clause, witness):
     src = hdr + "import logging, warnings\nimport param, numbergen\nwarnings.simplefilter('ignore')\n"
     src += "param.parameterized.get_logger().setLevel(logging.CRITICAL + 1)\n"
     src += "param.Dynamic.time_dependent = True\ntm = param.Dynamic.time_fn\ntm(0)\n"
+    if any(spec[g][1] in GEN_SRC for g in GENS):
+        src += GEN_PRELUDE
+    if TIME_MODE[cfgid] == "frac":
+        src += "tm(Fraction(0), time_type=Fraction)      # exact rational time type\n"
     src += "class Boom(Exception): pass\n"
 
     def gen_src(g):
         ptype, gcls, name, seed, td = spec[g]
+        if gcls in GEN_SRC:
+            return GEN_SRC[gcls] % {"name": name, "seed": seed}
         return "numbergen.%s(name=%r, seed=%d%s)" % (gcls, name, seed, ", time_dependent=True" if td else "")
 
     installed = {}
     for op in hist:
-        if op[0] == "R":
+        if op[0] in ("R", "F"):
             installed.setdefault(op[1], set()).add(op[2])
-    used = sorted({op[1] for op in hist if op[0] in ("R", "I", "P", "Q")})
+    used = sorted({op[1] for op in hist if op[0] in ("R", "F", "I", "P", "Q")})
     src += "class Plain(param.Parameterized):\n"
     for g in GENS:
         src += "    %s = param.%s(default=0.5)\n" % (g, spec[g][0])
@@ -506,14 +661,34 @@ def make_replay(cfgid, install, hist, check, clause, witness):
     for k, op in enumerate(hist):
         kind = op[0]
         if kind == "J":
-            emit("tm(%d)" % op[1])
+            emit("tm(%s)" % tsrc(op[1]))
             mtime = op[1]
+        elif kind == "F":
+            i, g = op[1], op[2]
+            emit("t0 = tm(); gen = g%d.param.get_value_generator(%r); gen.fail = True; faulted = False   # %s" % (i, g, op_text(op)))
+            emit("try:")
+            emit("    v = g%d.%s" % (i, g))
+            emit("except GenFault:")
+            emit("    faulted = True")
+            emit("finally:")
+            emit("    gen.fail = False")
+            emit("if not same(tm(), t0):")
+            emit("    reproduced('the time was %%r before the (failing) read of %s and is %%r afterwards' %% (t0, tm()))" % g)
+            emit("if not faulted:")
+            if spec[g][4]:
+                emit("    exp = G(%r, lambda: %s, tm())" % (g, gen_src(g)))
+                emit("    if not same(v, exp):")
+                emit("        reproduced('instance %d: %s read at time %%r is %%r; the value of this generator at that time is %%r' %% (tm(), v, exp))" % (i, g))
+            emit("    last[(%d, %r)] = (v, tm())" % (i, g))
         elif kind == "R":
             i, g = op[1], op[2]
+            emit("t0 = tm()")
             emit("try:")
             emit("    v = g%d.%s" % (i, g))
             emit("except Exception as e:")
             emit("    reproduced('reading %s of instance %d at time %%r raised %%s: %%s' %% (tm(), type(e).__name__, e))" % (g, i))
+            emit("if not same(tm(), t0):")
+            emit("    reproduced('the time was %%r before reading %s and is %%r afterwards' %% (t0, tm()))" % g)
             if spec[g][4]:
                 emit("exp = G(%r, lambda: %s, tm())" % (g, gen_src(g)))
                 emit("if not same(v, exp):")
@@ -525,7 +700,10 @@ def make_replay(cfgid, install, hist, check, clause, witness):
         elif kind == "I":
             i = op[1]
             for g in inst_gens.get(i, ()):
+                emit("t0 = tm()")
                 emit("v = g%d.param.inspect_value(%r)" % (i, g))
+                emit("if not same(tm(), t0):")
+                emit("    reproduced('the time was %%r before inspect_value(%r) and is %%r afterwards' %% (t0, tm()))" % g)
                 emit("if (%d, %r) in last and not same(v, last[(%d, %r)][0]):" % (i, g, i, g))
                 emit("    reproduced('instance %d: inspect_value of %s at time %%r returned %%r; the value last produced is %%r' %% (tm(), v, last[(%d, %r)][0]))" % (i, g, i, g))
         elif kind == "P":
@@ -565,19 +743,39 @@ def plan(tier):
         p += [(1, "assign", L, False) for L in (1, 2, 3, 4)]
         p += [(0, "default", L, False) for L in (1, 2, 3)]
         p += [(0, "assign", 5, True)]
+        # extension families (reduced alphabets, see alphabet()): faults, sampled generators, exact times
+        p += [(2, "assign", L, "fault") for L in (2, 3, 4)]
+        p += [(2, "default", 3, "fault")]
+        p += [(3, "assign", L, "small") for L in (1, 2, 3)] + [(3, "assign", 4, "tiny")]
+        p += [(4, "assign", L, "small") for L in (1, 2, 3)] + [(4, "assign", 4, "tiny")]
+        p += [(4, "default", 3, "tiny")]
         return p
     p = [(0, "assign", L, False) for L in (1, 2, 3, 4, 5)]
     p += [(1, "assign", L, False) for L in (1, 2, 3, 4, 5)]
     p += [(0, "default", L, False) for L in (1, 2, 3, 4)]
     p += [(1, "default", L, False) for L in (1, 2, 3)]
     p += [(0, "assign", 6, True)]
+    p += [(2, "assign", L, "fault+") for L in (2, 3, 4, 5)]
+    p += [(2, "default", L, "fault+") for L in (2, 3, 4)]
+    p += [(3, "assign", L, "small+") for L in (1, 2, 3, 4)] + [(3, "assign", 5, "small")]
+    p += [(4, "assign", L, "small+") for L in (1, 2, 3, 4)] + [(4, "assign", 5, "small")]
+    p += [(3, "default", L, "small") for L in (2, 3, 4)]
+    p += [(4, "default", L, "small") for L in (2, 3, 4)]
     return p
 
 
 def describe_plan(pl):
     def mx(c, ins, red):
-        ls = [L for (cc, ii, L, rr) in pl if cc == c and ii == ins and rr == red]
+        ls = [L for (cc, ii, L, rr) in pl if cc == c and ii == ins and rr is red]
         return max(ls) if ls else 0
+
+    def ext(c):
+        rows = sorted({(ii, rr, L) for (cc, ii, L, rr) in pl if cc == c and isinstance(rr, str)})
+        best = {}
+        for ii, rr, L in rows:
+            best[(ii, rr)] = max(L, best.get((ii, rr), 0))
+        return ", ".join("%s/%s-alphabet(%d ops) length <= %d" % (ii, rr, len(alphabet(rr, c)), L)
+                         for (ii, rr), L in sorted(best.items()))
     txt = ("all well-nested histories over the full 21-operation alphabet of length <= %d for configuration 0 "
            "(a=Number/UniformRandom seed 1, b=Dynamic/NormalRandom seed 7, c=Dynamic/stateful UniformRandom seed 3) and "
            "<= %d for configuration 1 (a=Dynamic/UniformRandom seed 7, b=Number/NormalRandom seed 1, "
@@ -586,7 +784,14 @@ def describe_plan(pl):
            "exactly %d over the reduced 12-operation alphabet {J(-1),J(0),J(1),R(1,a),R(1,c),R(2,a),I(1),E,X,XR,P(1),"
            "Q(1)} for configuration(s) %s; times {-2,-1,0,1,2,5}, 2 instances, nesting depth unbounded within the length"
            % (mx(0, "assign", False), mx(1, "assign", False), mx(0, "default", False), mx(1, "default", False),
-              max([L for (_, _, L, rr) in pl if rr] or [0]), sorted({c for (c, _, _, rr) in pl if rr})))
+              max([L for (_, _, L, rr) in pl if rr is True] or [0]), sorted({c for (c, _, _, rr) in pl if rr is True})))
+    txt += ("; EXTENSION families over reduced alphabets: configuration 2 (a=Number/UniformRandom, b=Dynamic/ScaledTime, "
+            "both able to fail on demand; alphabet with the fault operation F(i,g) = read while the generator raises; only "
+            "histories containing an F): %s; configuration 3 (a=Dynamic/TimeSampledFn(period 2.0, offset 0.5) over a "
+            "time-dependent UniformRandom, b=Number/SquareWave): %s; configuration 4 (time type fractions.Fraction, times "
+            "{-2/3,0,1/3,1,5/2}; a=Number/UniformRandom, b=Dynamic/TimeSampledFn(period 3/2, offset 1/2) over NormalRandom): "
+            "%s; after every read / failing read / inspect the shared time must be unchanged in value and type"
+            % (ext(2), ext(3), ext(4)))
     return txt
 
 
@@ -598,12 +803,13 @@ def _worker(task):
     import param
     _quiet()
     param.Dynamic.time_dependent = True
-    ops = alphabet(reduced)
+    ops = alphabet(reduced, cfgid)
+    need_fault = isinstance(reduced, str) and reduced.startswith("fault")
     ncases = ntrivial = 0
     counts, cands, samples = {}, {}, []
     try:
         for hist in enum_histories(length, ops, first):
-            if not worth_running(hist):
+            if not worth_running(hist) or (need_fault and not any(op[0] == "F" for op in hist)):
                 ntrivial += 1
                 continue
             ncases += 1
@@ -616,7 +822,8 @@ def _worker(task):
             for idx, clause, key, fields, detail, check in findings:
                 h = hist[:idx + 1]
                 ckey = (clause,) + tuple(key)
-                rank = (len(h), cfgid, 0 if install == "assign" else 1, int(reduced), first, ncases)
+                rank = (len(h), cfgid, 0 if install == "assign" else 1, 0 if reduced is False else 1, str(reduced),
+                        first, ncases)
                 if ckey not in cands or rank < cands[ckey][0]:
                     cands[ckey] = (rank, cfgid, install, h, fields, detail, check)
     finally:
@@ -631,7 +838,8 @@ def run(tier, seed):
     B = Bounded(
         PROP,
         rule=("one case = one well-nested history over {J(t) t in -2,-1,0,1,2,5; R(i,g) i in 1,2 g in a,b,c; I(i); "
-              "E; X; XR; P(i); Q(i)} run on fresh instances with freshly constructed numbergen generators "
+              "E; X; XR; P(i); Q(i); in the fault family also F(i,g): a read during which the generator raises, after "
+              "which the cache model is unchanged and the next read at that time must give G(gen,t)} run on fresh instances with freshly constructed numbergen generators "
               "(a,b time-dependent with name+seed, c stateful); histories that cannot observe anything (dead jumps, "
               "I/P/Q on a never-read instance, no read and no block) and instance-symmetric duplicates are not run. "
               "Every read is compared with the table G(generator, time) taken from a separate fresh object; inspect "
@@ -647,14 +855,14 @@ def run(tier, seed):
         _REF, ref_errors = reference_table()
         for cfgid, g, t, err in ref_errors[:1]:
             clause = "C19/Dynamic._produce_value/value==G(gen,t)"
-            witness = "gen=%s:%s ptype=%s t=%d first_read=0 got=raise reference-history cfg=%d install=assign hist=R(1,%s);J(%d);R(1,%s)" % (
+            witness = "gen=%s:%s ptype=%s t=%s first_read=0 got=raise reference-history cfg=%d install=assign hist=R(1,%s);J(%s);R(1,%s)" % (
                 g, CFGS[cfgid][g][1], CFGS[cfgid][g][0], t, cfgid, g, t, g)
             hist = (("R", 1, g), ("J", t), ("R", 1, g))
             B.violation(clause=clause, witness=witness, detail="the plainest history raised " + err,
                         replay=make_replay(cfgid, "assign", hist, ("read-raises", 1, g), clause, witness))
         tasks = []
         for cfgid, install, length, reduced in pl:
-            na = len(alphabet(reduced))
+            na = len(alphabet(reduced, cfgid))
             if length >= 4:
                 firsts = [(f1, f2) for f1 in range(na) for f2 in range(na)]
             elif length >= 2:
